@@ -48,6 +48,7 @@ TOp ==
        [] t.op = "extend" -> Extend(t.s, ks)
        [] t.op = "merge"  -> Merge(t.s, t.o)
        [] t.op = "merge3" -> Merge3(t.s, t.o, t.o2)
+       [] t.op = "base"   -> NewBase(t.o)
   /\ l' = l + 1 /\ UNCHANGED episode
 
 \* what schema s really ran (fields visited, tests and transforms invoked, in order), in `mode`
